@@ -120,7 +120,13 @@ def settle(ctx, answers, pending):
         if kind == "checkprog":
             ctx.translator_obligations += 1
             r = ans["ok"]
-            if r["wellscoped"] and r["agree"] and r["speclen_ok"] and r["evaluated"] > 0:
+            sym = r.get("symbolic")
+            ctx.count(f"symbolic={sym}")
+            key = "symbolically_verified_blocks" if sym is True else "numeric_only_blocks"
+            ctx.extra[key] = ctx.extra.get(key, 0) + 1
+        key = "symbolically_verified_blocks" if sym is True else "numeric_only_blocks"
+        ctx.extra[key] = ctx.extra.get(key, 0) + 1
+            if r["wellscoped"] and r["agree"] and r["speclen_ok"] and r["evaluated"] > 0 and sym is not False:
                 ctx.translator_discharged += 1
             else:
                 ctx.broke("translator:checkprog (recorded block vs definition)", r, info)
@@ -151,6 +157,8 @@ def run(ctx):
     for i in range(ndefs):
         transcend = (i % 4 == 3)
         d = gen.gen_definition(ctx.rng, transcend=transcend, n_sensors=0)
+        if transcend and i % 8 == 3:
+            gen.force_inverse_composition(ctx.rng, d)
         points = [gen.gen_point(ctx.rng, d) for _ in range(npts)]
         check_definition(ctx, drv, d, points, pending, "transcendental" if transcend else "rational")
     settle(ctx, drv.run(), pending)
